@@ -34,3 +34,84 @@ func (t *T) Validate() error {
 	}
 	return WeakValidate(t.Label)
 }
+
+// ---- effectiveness of the containment test ----
+
+func IndexGoodValidate(s string) error {
+	if strings.IndexByte(s, 0) >= 0 {
+		return errors.New("NUL")
+	}
+	return nil
+}
+
+// IndexOffByOneValidate accepts a leading NUL.
+func IndexOffByOneValidate(s string) error {
+	if strings.IndexByte(s, 0) > 0 {
+		return errors.New("NUL")
+	}
+	return nil
+}
+
+func hasNULGood(s string) bool { return strings.IndexByte(s, 0) != -1 }
+func hasNULBad(s string) bool  { return strings.IndexByte(s, 0) > 0 }
+
+func HelperGoodValidate(s string) error {
+	if hasNULGood(s) {
+		return errors.New("NUL")
+	}
+	return nil
+}
+
+func HelperOffByOneValidate(s string) error {
+	if hasNULBad(s) {
+		return errors.New("NUL")
+	}
+	return nil
+}
+
+// InvertedValidate refuses the strings that do NOT contain the byte.
+func InvertedValidate(s string) error {
+	if !strings.ContainsRune(s, 0) {
+		return errors.New("?")
+	}
+	return nil
+}
+
+// GuardedValidate only tests long strings.
+func GuardedValidate(s string) error {
+	if len(s) > 8 && strings.ContainsRune(s, 0) {
+		return errors.New("NUL")
+	}
+	return nil
+}
+
+// VarIndexValidate keeps the index in a variable and misses position 0.
+func VarIndexValidate(s string) error {
+	if i := strings.IndexAny(s, ".:"); i > 0 {
+		return errors.New("bad character")
+	}
+	return nil
+}
+
+// ---- K5 ----
+
+type registry struct{ fields map[string]bool }
+
+func (r *registry) RemoveField(f string) { delete(r.fields, f) }
+
+func OkPrefixTerminated(r *registry, graph string) {
+	p := graph + "."
+	for f := range r.fields {
+		if strings.HasPrefix(f, p) {
+			r.RemoveField(f)
+		}
+	}
+}
+
+func BadPrefixBare(r *registry, graph string) {
+	for f := range r.fields {
+		if strings.HasPrefix(f, graph) {
+			r.RemoveField(f)
+		}
+	}
+}
